@@ -1026,6 +1026,9 @@ def _val_to_numpy(
 
     if isinstance(getattr(val, "dtype", None), np.dtype):
         if as_list:
+            if val.dtype.kind == "O":
+                # numba's typed list cannot hold object (string) arrays; callers only iterate
+                return [np.asarray(val)]
             return NumbaList([np.asarray(val)])
         else:
             return np.asarray(val)
@@ -1047,6 +1050,9 @@ def _val_to_numpy(
         val_list = [np.asarray(val)]
 
     if as_list:
+        if any(v.dtype.kind == "O" for v in val_list):
+            # numba's typed list cannot hold object (string) arrays; callers only iterate
+            return list(val_list)
         return NumbaList(val_list)
     else:
         if len(val_list) > 1:
